@@ -190,8 +190,13 @@ package hclsyntax
 //@ nosafety
 // verif:func ParseExpression
 //@ nosafety
+// tmplParses counts the calls of the native template parser (used by the JSON syntax, unit U4b:
+// in full-expression mode every JSON string must go through it).
+// verif:ghostvar tmplParses int
 // verif:func ParseTemplate
 //@ nosafety
+//@ ghost tmplParses = old(tmplParses) + 1
+//@ ensures counted: tmplParses == old(tmplParses) + 1
 // verif:func ParseTraversalAbs
 //@ nosafety
 // verif:func ParseTraversalPartial
